@@ -34,6 +34,20 @@ def family(layout: str) -> str:
     return layout.split("+", 1)[0]
 
 
+NESTED_LAYOUT_BY_SUFFIX = [(".tar.gz", "tar.gz"), (".tgz", "tar.gz"), (".tar.bz2", "tar.bz2"), (".tbz2", "tar.bz2"), (".tar.xz", "tar.xz"), (".txz", "tar.xz"),
+                           (".tar", "tar"), (".zip", "zip-stored"), (".7z", "7z-copy-solid"), (".gz", "tar.gz"), (".bz2", "tar.bz2"), (".xz", "tar.xz")]
+
+
+def nested_for(name: str, inner_members: list[dict]) -> bytes:
+    """A *readable* archive of the container type the member name ``name`` announces (case-insensitive suffix; a bare .gz / .bz2 / .xz holds a
+    compressed TAR), holding ``inner_members`` - what a nested archive member really is."""
+    low = name.lower()
+    for suf, layout in NESTED_LAYOUT_BY_SUFFIX:
+        if low.endswith(suf):
+            return build(layout, inner_members)
+    raise ValueError(name)
+
+
 def tar_format(layout: str) -> str:
     """Header format of a TAR layout name: "pax" (default), "gnu" or "ustar"."""
     return layout.split("+", 1)[1] if "+" in layout else "pax"
